@@ -216,7 +216,7 @@ def f5(ctx, rid):
         for c in f.calls:
             if c.name == 'poll' or not any(t in lvl for t in prog.resolve(c)):
                 continue
-            pushes = [p for p in f.calls if p.name == 'push' and any('IndexTrait' in t or 'IndexStruct' in t for t in prog.resolve(p))]
+            pushes = prims.index_push_sites(prog, f)
             for p in pushes:
                 n += 1
                 key = 'push-only-after-ok-append|%s' % prog.fns[f.id].root
